@@ -14,6 +14,7 @@ use crate::model::run_model;
 use crate::props::c05::{hidden_set, spec_annotate_request};
 use crate::rng::Rng;
 use crate::tok::*;
+use std::collections::HashMap;
 use serde_json::{json, Map, Value};
 use std::collections::HashSet;
 
@@ -285,6 +286,26 @@ pub fn gen_issuer_history(r: &mut Rng, tier: Tier) -> IssuerHistory {
     IssuerHistory { key, alg, calls }
 }
 
+/// the same selection with the members of every object in another order (reversed, or shuffled)
+fn reorder_members(r: &mut Rng, v: &Value, reverse: bool) -> Value {
+    match v {
+        Value::Object(m) => {
+            let mut items: Vec<(String, Value)> = m.iter().map(|(k, x)| (k.clone(), reorder_members(r, x, reverse))).collect();
+            if reverse {
+                items.reverse();
+            } else {
+                for i in (1..items.len()).rev() {
+                    let j = r.below(i + 1);
+                    items.swap(i, j);
+                }
+            }
+            Value::Object(items.into_iter().collect())
+        }
+        Value::Array(a) => Value::Array(a.iter().map(|x| reorder_members(r, x, reverse)).collect()),
+        _ => v.clone(),
+    }
+}
+
 fn insert_at(m: &Map<String, Value>, at: usize, k: &str, v: Value) -> Map<String, Value> {
     let mut items: Vec<(String, Value)> = m.iter().filter(|(x, _)| x.as_str() != k).map(|(a, b)| (a.clone(), b.clone())).collect();
     let at = at.min(items.len());
@@ -317,6 +338,19 @@ pub fn gen_holder_history(r: &mut Rng, tier: Tier) -> HolderHistory {
                 gen_selection(r, &claims, d)
             }
         };
+        let mut sel = sel;
+        // the members of a selection object come in any order (the order of the disclosures in the presentation follows it);
+        // now and then the previous call's selection again with its members in another order
+        let mut force_kb = false;
+        if r.chance(1, 4) {
+            if let Some(prev) = calls.last().map(|c: &HCall| (c.args.sel.clone(), c.class.clone())) {
+                sel = Value::Object(prev.0);
+                force_kb = prev.1 == "kb";
+            }
+            sel = reorder_members(r, &sel, true);
+        } else if r.chance(1, 4) {
+            sel = reorder_members(r, &sel, false);
+        }
         let mut a = PresentArgs::plain(sel.as_object().cloned().unwrap_or_default());
         let mut class = "plain";
         let good_kb = |r: &mut Rng, a: &mut PresentArgs| {
@@ -381,6 +415,10 @@ pub fn gen_holder_history(r: &mut Rng, tier: Tier) -> HolderHistory {
                 good_kb(r, &mut a);
             }
             _ => {}
+        }
+        if force_kb && class == "plain" {
+            class = "kb";
+            good_kb(r, &mut a);
         }
         calls.push(HCall { args: a.clone(), class: class.to_string() });
         // the same key-bound call again at once, signed with another key of the same family (and the same kid)
@@ -915,6 +953,9 @@ pub fn run(ctx: &mut Ctx, replay: Option<&str>) {
             ctx.count("issuer_history.deep_failures_then_success");
         }
     }
+    if replay.is_none() {
+        wide_issuer_history(ctx);
+    }
     let mut reqs = vec![];
     let mut iruns = vec![];
     for h in &issuer_hs {
@@ -955,4 +996,65 @@ pub fn run(ctx: &mut Ctx, replay: Option<&str>) {
     if let Some(h) = holder_hs.iter().find(|h| h.calls.len() >= 2 && h.calls.len() <= 3) {
         ctx.sample(json!({"history": h.json()}));
     }
+}
+
+/// ONE issuer instance issuing credentials with hundreds of disclosures each (several thousand salt draws in all): nothing of an
+/// earlier result — salt, disclosure, digest — appears in a later one, and each result verifies to its own claims. Judged on the
+/// implementation alone (the extracted model is quadratic in the number of disclosures).
+fn wide_issuer_history(ctx: &mut Ctx) {
+    let (per, times) = if ctx.tier == Tier::Quick { (260usize, 8usize) } else { (700, 8) };
+    let mut r = ctx.rng.fork(0x3_0000_0000);
+    let claims = gen_wide_claims(&mut r, per, now());
+    let mk = |decoy: bool, fmt: Fmt| IssueArgs { claims: claims.clone(), strategy: Strategy::All, holder: None, decoy, fmt, key: KeyId::Hmac1, alg: Some("HS256".into()), queue: None };
+    let calls: Vec<IssueArgs> = (0..times).map(|k| mk(k % 2 == 1, if k % 3 == 0 { Fmt::Json } else { Fmt::Compact })).collect();
+    let case = json!({"wide_issuer_history": {"members": per, "calls_on_one_instance": times, "strategy": "all", "the same claims every time": true}});
+    let seq = match issue_sequence(KeyId::Hmac1, Some("HS256".into()), calls.clone()) {
+        Some(s) => s,
+        None => return,
+    };
+    ctx.impl_calls += times;
+    ctx.evaluations += 1;
+    let mut salts: HashMap<String, usize> = HashMap::new();
+    let mut texts: HashMap<String, usize> = HashMap::new();
+    let mut digs: HashMap<String, usize> = HashMap::new();
+    for (k, (a, res)) in calls.iter().zip(&seq).enumerate() {
+        ctx.oracle_checks += 1;
+        let parts = match res.out.ok().and_then(|s| split(a.fmt, s)) {
+            Some(p) => p,
+            None => {
+                ctx.violation("oracle", "issue", &format!("call {} of a wide history on one issuer did not return an SD-JWT", k), case.clone(), res.out.describe(), json!("Ok"));
+                return;
+            }
+        };
+        let mut problems = vec![];
+        for d in &parts.disclosures {
+            if let Some(j) = texts.insert(d.clone(), k) {
+                problems.push(format!("call {}: a disclosure of call {} appears again", k, j));
+            }
+            if let Some(Value::Array(arr)) = decode_disclosure(d) {
+                if let Some(s) = arr.first().and_then(Value::as_str) {
+                    if let Some(j) = salts.insert(s.to_string(), k) {
+                        problems.push(format!("call {}: the salt {:?} of call {} is used again", k, s, j));
+                    }
+                }
+            }
+        }
+        for d in all_digests(&parts) {
+            if let Some(j) = digs.insert(d.clone(), k) {
+                problems.push(format!("call {}: the digest {} of call {} appears again", k, d, j));
+            }
+        }
+        let v = verify(&VerifyArgs { input: res.out.ok().cloned().unwrap_or_default(), fmt: a.fmt, resolver: Resolver::always(a.key), aud: None, nonce: None });
+        ctx.impl_calls += 1;
+        match &v.out {
+            Outcome::Ok(c) if *c == claims => {}
+            other => problems.push(format!("call {}: the issued SD-JWT does not verify to the call's own claims ({})", k, other.class())),
+        }
+        if !problems.is_empty() {
+            ctx.violation("oracle", "issue", &problems[0].clone(), case.clone(), json!({"problems": problems.iter().take(5).collect::<Vec<_>>(), "count": problems.len()}), json!("fresh salts, disclosures and digests in every call"));
+            return;
+        }
+    }
+    ctx.count_n("wide_issuer_history.salts", salts.len());
+    ctx.nontrivial(&case);
 }
